@@ -125,6 +125,48 @@ class PolarsCheckUnique(_PlCore):
         return out
 
 
+class PolarsCheckDtype(_PlCore):
+    """check_dtype (polars column): without a declared dtype one passing result; otherwise one result per selected column whose verdict
+    is what the DECLARED dtype's `check` says about THAT column's dtype (and data), reason WRONG_DATATYPE, failure case = the dtype found"""
+
+    target = f"{COLP}.check_dtype.__wrapped__"
+    split = {"dtype": ["declared", "none"]}
+
+    def make_args(self):
+        a = super().make_args()
+        if self.fixed.get("dtype", "declared") == "declared":
+            dt = T.Ref(None, check=T.Callback(T.Lazy(lambda n: cur().ghost.setdefault("dtype_answer", T.fresh_value(T.Bool, n))), raises=False)).fresh("schema.dtype")
+        else:
+            dt = None
+        a["schema"].attrs["dtype"] = dt
+        a["schema"].attrs0["dtype"] = dt
+        return a
+
+    def ensures(self, result, old, self_, check_obj, schema):
+        rs = self.results(result)
+        out = {"returns_results": rs is not None}
+        if rs is None:
+            return out
+        out["reason"] = all(r.attrs["reason_code"] is SchemaErrorReason.WRONG_DATATYPE for r in rs)
+        dt = fld0(schema, "dtype")
+        if dt is None:
+            out["no_declared_dtype_one_passing_result"] = len(rs) == 1 and rs[0].attrs["passed"] is True
+            return out
+        calls = fld0(dt, "check").calls
+        lf = cur().ghost["lf"]
+        out["one_result_per_selected_column"] = len(rs) == 1 and len(calls) == 1
+        if len(rs) == 1 and len(calls) == 1:
+            (args, kw) = calls[0]
+            found = PP._SchemaP(lf)._dtype("a")
+            out["declared_dtype_asked_about_the_columns_own_dtype"] = len(args) == 2 and args[0] is found
+            data = args[1] if len(args) == 2 else None
+            sub = fld(data, "lazyframe") if isinstance(data, Obj) else None
+            out["and_given_the_selected_column_as_data"] = isinstance(sub, PP.FrameP) and list(sub.cols) == ["a"] and sub.space is lf.space and fld(data, "key") == "a"
+            ev = [e for e in cur().events if e[0] == "callback"]
+            out["verdict_is_the_dtypes_answer"] = rs[0].attrs["passed"] is cur().ghost.get("dtype_answer") and len(ev) == 1
+        return out
+
+
 def _standin(which):
     def run(seed=0, tier="quick"):
         """run-time contract on the real polars ColumnBackend core check: verdict and row-aligned check_output against the spec above"""
@@ -181,4 +223,4 @@ def _standin(which):
 PolarsCheckNullable.bounded_standin = staticmethod(_standin("nullable"))
 PolarsCheckUnique.bounded_standin = staticmethod(_standin("unique"))
 
-CONTRACTS = [PolarsCheckNullable, PolarsCheckUnique]
+CONTRACTS = [PolarsCheckNullable, PolarsCheckUnique, PolarsCheckDtype]
